@@ -5,6 +5,7 @@
 From Coq Require Import List Arith NArith Bool ZArith.
 From NngV Require Import Gen.Consts Proto.Common Proto.ReqRepBacktrace Proto.ReqModel Proto.ReqRepProofs Proto.ReqProofs.
 From NngV Require Import Proto.PollModel Proto.PollReq Proto.ReqProgressProofs.
+From NngV Require Proto.ReqIdsProofs Proto.ReqStashProofs.
 Import ListNotations.
 
 (* PARTIAL: stated for a pipe whose `contexts' list holds exactly this context (the
@@ -123,10 +124,43 @@ Theorem req_stashed_reply_survives_refuted :
   nth 6 (outs_of (snd (req_run fx_pinned req_init w_stash))) [] = [Complete 9%N E_CONNRESET None].
 Proof. exact req_stashed_reply_survives_refuted_w. Qed.
 Print Assumptions req_stashed_reply_survives_refuted.
-Theorem req_stashed_reply_survives_repaired_partial :      (* PARTIAL: witness history only *)
+Theorem req_stashed_reply_survives_repaired_witness :
   nth 6 (outs_of (snd (req_run fx_repaired req_init w_stash))) [] = [Complete 9%N E_OK (Some (mkPmsg [] [187%N]))].
 Proof. exact req_stashed_reply_survives_repaired_w. Qed.
-Print Assumptions req_stashed_reply_survives_repaired_partial.
+Print Assumptions req_stashed_reply_survives_repaired_witness.
+(* ... and for every reachable state of the repaired model (fx_stash = true;
+   reachability = ReqIdsProofs.req_reach, contract: a context number is not
+   opened twice), whatever the resend time: a context that holds a stashed reply
+   is on no pipe's list and not on the send queue (invariant stash_inv), so the
+   loss of ANY connection leaves that context exactly as it was -- the reply,
+   conn_reset and the posted receive -- and the next receive delivers the reply *)
+Theorem req_stash_invariant : forall fx s,
+  fx_stash fx = true -> ReqIdsProofs.req_reach fx s -> ReqStashProofs.stash_inv s.
+Proof. exact ReqStashProofs.reach_stash. Qed.
+Print Assumptions req_stash_invariant.
+Theorem req_stashed_ctx_untouched_by_pipe_loss : forall fx s k c m p s' outs,
+  fx_stash fx = true -> ReqIdsProofs.req_reach fx s -> ctx_get s k = Some c -> cx_rep c = Some m ->
+  req_step fx s (PPipeClose p) = (s', outs) -> ctx_get s' k = Some c.
+Proof. exact ReqStashProofs.req_stashed_ctx_untouched_by_pipe_loss. Qed.
+Print Assumptions req_stashed_ctx_untouched_by_pipe_loss.
+Theorem req_stashed_reply_delivered_after_pipe_loss : forall fx s k c m p s' outs,
+  fx_stash fx = true -> ReqIdsProofs.req_reach fx s -> ctx_get s k = Some c -> cx_rep c = Some m -> cx_recv c = None ->
+  req_step fx s (PPipeClose p) = (s', outs) ->
+  forall co a nb, ckey co = k -> exists s'', req_step fx s' (PRecv co a nb) = (s'', [Complete a E_OK (Some m)]).
+Proof. exact ReqStashProofs.req_stashed_reply_delivered_after_pipe_loss. Qed.
+Print Assumptions req_stashed_reply_delivered_after_pipe_loss.
+(* the pinned recv_cb really breaks the invariant (so fx_stash = true is needed), and
+   the hypotheses above are met by a concrete reachable state with resending disabled *)
+Theorem req_stash_invariant_pinned_refuted :
+  exists s, ReqIdsProofs.req_reach fx_pinned s /\ ~ ReqStashProofs.stash_inv s.
+Proof. eexists. exact ReqStashProofs.req_stash_inv_refuted_pinned_w. Qed.
+Print Assumptions req_stash_invariant_pinned_refuted.
+Example req_stashed_nonvacuous :
+  fx_stash fx_repaired = true /\ ReqIdsProofs.req_reach fx_repaired ReqStashProofs.w_stashed /\
+  ctx_get ReqStashProofs.w_stashed 0%N = Some ReqStashProofs.w_stashed_ctx /\
+  cx_rep ReqStashProofs.w_stashed_ctx = Some (mkPmsg [] [187%N]) /\ cx_recv ReqStashProofs.w_stashed_ctx = None /\
+  retry_on fx_repaired ReqStashProofs.w_stashed_ctx = false.
+Proof. destruct ReqStashProofs.req_stashed_hypotheses_w as (A & B & C & D & E & F & _). repeat (split; [assumption|]). assumption. Qed.
 
 Theorem req_retry_consts_match :
   REQ_RESEND_DEFAULT = Z.of_N C04_REQ_RESEND_DEFAULT /\ REQ_TICK_DEFAULT = Z.of_N C04_REQ_TICK_DEFAULT /\
